@@ -3169,6 +3169,12 @@ func rulePXRegister(c *Ctx) []Obligation {
 		switch class {
 		case "hint":
 			okCoh = alias.String() == hintAlias || aliasTrue
+			// the hint's own flag, spelled as the constant the path knows it to be
+			if b, isB := alias.boolVal(); isB && !okCoh {
+				if v := fact3(F, hintAlias); v[1] && v[0] == b {
+					okCoh = true
+				}
+			}
 		case "std":
 			okCoh = true
 		case "guess", "modified":
